@@ -103,8 +103,8 @@ CLAIMS.update({
         "pattern, the command list delivered to a recording OutlineSink through GlyfTable::visit equals an independent statement of the TrueType "
         "rule (start point choice, implied midpoints incl. across the closing edge, one move_to and one close per contour); 2 points with every "
         "i16 coordinate in the thorough tier; the component transform: a stored uniform, x/y or 2x2 scale with EVERY 2.14 entry converts to the matrix that maps "
-        "(1,0) to (xscale, scale01) and (0,1) to (scale10, yscale), the convention of the glyf chapter (this found the transposed matrix, repaired); the packed flag/coordinate decoder SimpleGlyph::read_dep on one contour of 3 points with every flag bit and coordinate byte symbolic, one harness per REPEAT shape (none, first flag repeated once or twice; thorough: second flag, zero count): short vectors with sign bit, same-as-previous, word deltas, running sums, on-curve bits equal a decoder written from the glyf chapter.",
-        "Outside: the composite walk itself (offsets, nesting limit, point-number placement: five variants passed 8.8 GB after 19 min), packed glyphs of more than 3 points or repeat counts above 2, > 4 points in the walk. "
+        "(1,0) to (xscale, scale01) and (0,1) to (scale10, yscale), the convention of the glyf chapter (this found the transposed matrix, repaired); the packed decoder SimpleGlyph::read_dep only for ONE point stored as x = same-as-previous, y = short vector under a REPEAT flag with count 0 (count byte consumed, sign bit, on-curve bit).",
+        "Outside: the composite walk itself (offsets, nesting limit, point-number placement: five variants passed 8.8 GB after 19 min), the packed flag/coordinate decoder beyond that one shape (1-3 points with short or word deltas on both axes: no answer in 10 min), > 4 points in the walk. "
         "Assumption: pathfinder_simd built with pf-no-simd (scalar Vector2F).",
         "DESIGN.md section 6, C16", TECH_KANI),
     "C09": (
